@@ -128,7 +128,7 @@ def _check(m, spec, desc, ctx, f0, factor):
                 V('amplitude_mismatch', 'use=%s peak amplitude of the rescaled waveforms: %s' % (use, dd), **fu)
             with np.errstate(all='ignore'):
                 expp = U * (exp_id / factor / au)[:, None, None] * factor
-            dd = same(phys, expp, dtype=False, rtol=1e-4, atol=1e-9 * max(1e-30, float(np.nanmax(np.abs(expp))) if np.isfinite(expp).any() else 1))
+            dd = same(phys, expp, dtype=False, rtol=1e-4, atol=1e-5 * max(1e-30, float(np.nanmax(np.abs(expp))) if np.isfinite(expp).any() else 1))
             if dd:
                 V('amplitude_mismatch', 'use=%s rescaled waveforms: %s' % (use, dd), **fu)
     # mean stored amplitudes over ids present
